@@ -300,6 +300,10 @@ let run_render (id : string) (fields : sexp list) =
 
 let run_case (line : string) =
   match parse_sexp line with
+  | L [A "progname"; A id; h] ->
+    (match program_name (Some (hx h)) with
+     | Some n -> Printf.printf "%s\tNAME\t%s\n" id (hex_of_bytes n)
+     | None -> Printf.printf "%s\tNAME\t-\n" id)
   | L (A "render" :: A id :: fields) ->
     (try run_render id fields
      with Failure m -> Printf.printf "%s\tBADCASE\t%s\n" id m
